@@ -277,7 +277,10 @@ class FunctionVerifier:
                 t = ip.spec_bool(expr, env, old)
                 if ip.check(f"cut:{name}", t, where=expr):
                     st.assume(t)            # a proved intermediate fact, available to the following steps
+            import fnmatch as _fn
             for name, expr in c.ensures.items():
+                if any(_fn.fnmatch(name, pat) for pat in c.bounded_clauses):
+                    continue        # decided by the bounded stand-in only (labelled bounded, never counted as proved)
                 try:
                     t = ip.spec_bool(expr, env, old)
                 except PyRaise as pr:
